@@ -5,7 +5,7 @@ rewind (resume or suspension) happened while the run was open, so that known fin
 new violations of the same property.
 """
 
-_SKIP = ("doc", "dev", "status", "fault", "inject", "suspend_req", "release", "ret", "plan_end")
+_SKIP = ("doc", "dev", "status", "fault", "inject", "suspend_req", "release", "ret", "plan_end", "cbfail")
 
 
 def _doc_emission_context(obs):
